@@ -10,8 +10,19 @@
 (*               with at least N consecutive observations equal to x whose first one is at     *)
 (*               least MinStable old                                                           *)
 (*   NoCooldown  no reaction fires before t_unhealthy + Cooldown                               *)
-(*   NoFlap      an observation log without such a run has no reaction (a consequence of       *)
-(*               Stable, kept as an explicit invariant: reacted => a qualifying run existed)   *)
+(*   NoFlap      a flapping signal never triggers any reaction.  This clause is unconditional  *)
+(*               and the settings range over everything, incl. the degenerate N <= 1 with a    *)
+(*               stable period of 0, where Stable alone would let the very reading that STARTS *)
+(*               a change fire a reaction - and a signal that alternates at every check would  *)
+(*               then trigger a reaction at every check.  How the two clauses combine: at the  *)
+(*               moment of a reaction the future readings are unknown, so the only way never   *)
+(*               to react to a signal that changes at every check is not to react to a value   *)
+(*               read once: the value must have been CONFIRMED by the following reading.  A    *)
+(*               value read twice in a row is no longer "changing at every check", and beyond  *)
+(*               that the statement's own measure of stability (N checks, stable period)       *)
+(*               applies.  So a reaction needs a run of at least max(N, 2) equal observations  *)
+(*               (first one at least MinStable old) - nothing more is demanded.  Kept also as  *)
+(*               an invariant: reacted => a qualifying run existed.                            *)
 EXTENDS Integers, Sequences
 
 VARIABLES
@@ -28,19 +39,21 @@ pvars == <<N, MS, CD, runVal, runLen, runStart, lastReact, coolUntil, tlast, nre
 
 KindOf(b) == IF b THEN "healthy" ELSE "unhealthy"
 
+Qual(len, age) == len >= N /\ len >= 2 /\ age >= MS          \* Stable and NoFlap combined
+
 Obs(b, t) ==
     /\ t >= tlast
     /\ IF runLen > 0 /\ runVal = b
        THEN /\ runLen' = runLen + 1 /\ UNCHANGED <<runVal, runStart>>
-            /\ qualified' = (qualified \/ (runLen + 1 >= N /\ t - runStart >= MS))
+            /\ qualified' = (qualified \/ Qual(runLen + 1, t - runStart))
        ELSE /\ runVal' = b /\ runLen' = 1 /\ runStart' = t
-            /\ qualified' = (qualified \/ (1 >= N /\ 0 >= MS))
+            /\ qualified' = (qualified \/ Qual(1, 0))
     /\ tlast' = t
     /\ last' = [ev |-> "obs", b |-> b, t |-> t]
     /\ UNCHANGED <<N, MS, CD, lastReact, coolUntil, nreact>>
 
 AlternateOK(k) == IF lastReact = "none" THEN k = "unhealthy" ELSE k # lastReact
-StableOK(k, t) == runLen >= N /\ KindOf(runVal) = k /\ t - runStart >= MS
+StableOK(k, t) == Qual(runLen, t - runStart) /\ KindOf(runVal) = k
 CooldownOK(t) == t >= coolUntil
 
 ObserveReact(k, t) ==
@@ -48,7 +61,7 @@ ObserveReact(k, t) ==
     /\ coolUntil' = IF k = "unhealthy" THEN t + CD ELSE coolUntil
     /\ tlast' = t
     /\ nreact' = nreact + 1
-    /\ qualified' = (qualified \/ (runLen >= N /\ t - runStart >= MS))
+    /\ qualified' = (qualified \/ Qual(runLen, t - runStart))
     /\ last' = [ev |-> "react", k |-> k, t |-> t]
     /\ UNCHANGED <<N, MS, CD, runVal, runLen, runStart>>
 
